@@ -19,6 +19,23 @@ REPO = os.environ.get("VERIF_REPO", "/repo")
 WORK = os.path.join(ROOT, "work")
 SPEC = os.path.join(ROOT, "spec")
 HARNESS = os.path.join(ROOT, "harness")
+if REPO != "/repo":
+    # checks normally run against /repo itself; for background experiments on a snapshot of the repository
+    # (VERIF_REPO=<dir>) the harness is copied with its path dependency re-pointed
+    _alt = os.path.join(ROOT, "work", "harness-alt")
+    os.makedirs(os.path.dirname(_alt), exist_ok=True)
+    if not os.path.exists(os.path.join(_alt, "Cargo.toml")) or \
+            open(os.path.join(HARNESS, "Cargo.toml")).read().replace('path = "/repo"', 'path = "%s"' % REPO) != open(os.path.join(_alt, "Cargo.toml")).read():
+        shutil.rmtree(_alt, ignore_errors=True)
+        shutil.copytree(HARNESS, _alt, ignore=shutil.ignore_patterns("target"))
+        _t = open(os.path.join(_alt, "Cargo.toml")).read().replace('path = "/repo"', 'path = "%s"' % REPO)
+        open(os.path.join(_alt, "Cargo.toml"), "w").write(_t)
+    else:
+        for _f in ("build.rs", "src/lib.rs"):
+            shutil.copy(os.path.join(HARNESS, _f), os.path.join(_alt, _f))
+        for _f in os.listdir(os.path.join(HARNESS, "src", "bin")):
+            shutil.copy(os.path.join(HARNESS, "src", "bin", _f), os.path.join(_alt, "src", "bin", _f))
+    HARNESS = _alt
 EVIDENCE = os.path.join(ROOT, "evidence")
 KNOWN = os.path.join(ROOT, "known_findings.json")
 
@@ -51,6 +68,7 @@ def workdir(name):
 def run(cmd, cwd=None, env=None, timeout=None, check=True, capture=True):
     e = dict(os.environ)
     e.setdefault("CARGO_NET_OFFLINE", "true")
+    e.setdefault("VERIF_REPO", REPO)
     if env:
         e.update(env)
     t0 = time.time()
